@@ -379,10 +379,31 @@ type UintArg struct {
 	i uint
 }
 
+// isDecimalInteger checks the RFC 6020 ABNF integer-value:
+// ["-"] ("0" / positive-integer-value), i.e. decimal digits only, no "+",
+// no leading zeros, no base prefix, no underscores.
+func isDecimalInteger(s string, allowNegative bool) bool {
+	if allowNegative && strings.HasPrefix(s, "-") {
+		s = s[1:]
+	}
+	if len(s) == 0 || (len(s) > 1 && s[0] == '0') {
+		return false
+	}
+	for _, c := range s {
+		if c < '0' || c > '9' {
+			return false
+		}
+	}
+	return true
+}
+
 func (a *UintArg) Parse() error {
-	i, e := strconv.ParseUint(string(a.arg), 0, 32)
+	i, e := strconv.ParseUint(string(a.arg), 10, 32)
 	if e != nil {
 		return e
+	}
+	if !isDecimalInteger(string(a.arg), false) {
+		return errors.New("invalid non-negative integer: " + string(a.arg))
 	}
 	a.i = uint(i)
 	return nil
@@ -394,9 +415,12 @@ type IntArg struct {
 }
 
 func (a *IntArg) Parse() error {
-	i, e := strconv.ParseInt(string(a.arg), 0, 32)
+	i, e := strconv.ParseInt(string(a.arg), 10, 32)
 	if e != nil {
 		return e
+	}
+	if !isDecimalInteger(string(a.arg), true) {
+		return errors.New("invalid integer: " + string(a.arg))
 	}
 	a.i = int(i)
 	return nil
@@ -563,6 +587,10 @@ func (a *MaxValueArg) Parse() error {
 		if e != nil {
 			return e
 		}
+		// max-value-arg = unbounded-keyword / positive-integer-value
+		if i.i == 0 {
+			return errors.New("invalid max-elements argument: " + string(a.arg))
+		}
 	}
 	a.i = i
 	return nil
@@ -633,6 +661,18 @@ type Lb struct {
 	Start, End uint64
 }
 
+// A length boundary is a non-negative-integer-value in decimal digits.
+func parseLengthBoundary(s string) (uint64, error) {
+	i, e := strconv.ParseUint(s, 10, 64)
+	if e != nil {
+		return 0, e
+	}
+	if !isDecimalInteger(s, false) {
+		return 0, errors.New("invalid length boundary: " + s)
+	}
+	return i, nil
+}
+
 type LengthArg struct {
 	arg
 	lbs []Lb
@@ -664,7 +704,7 @@ func (a *LengthArg) Parse() error {
 			case "min":
 				l.Min = true
 			default:
-				i, e := strconv.ParseUint(bs[0], 0, 64)
+				i, e := parseLengthBoundary(bs[0])
 				if e != nil {
 					return e
 				}
@@ -676,7 +716,7 @@ func (a *LengthArg) Parse() error {
 			case "min":
 				l.Min = true
 			default:
-				i, e = strconv.ParseUint(bs[0], 0, 64)
+				i, e = parseLengthBoundary(bs[0])
 				if e != nil {
 					return e
 				}
@@ -686,7 +726,7 @@ func (a *LengthArg) Parse() error {
 			case "max":
 				l.Max = true
 			default:
-				i, e = strconv.ParseUint(bs[1], 0, 64)
+				i, e = parseLengthBoundary(bs[1])
 				if e != nil {
 					return e
 				}
